@@ -158,6 +158,79 @@ Theorem C10_rollback_bare_errors :
 Proof. exact (conj rollback_bare_errors (conj rollback_bare_first rollback_noconsult_refuted)). Qed.
 Print Assumptions C10_rollback_bare_errors.
 
+(* The validation DECISION of each object kind, keyword by keyword (GuardModel.v, round 4: colvarx_validate,
+   walls_validate, opesx_validate, metax_validate, abfshared_validate, alb_validate, kmoving_validate; the C++
+   accept/reject and error class of generated configurations is compared exactly with them on every run).
+   For ALL value texts: an ACCEPTED configuration satisfies the invariants that the later code relies on:
+   variable: width > 0, timeStepFactor >= 0, ordered boundaries, and for an extended Lagrangian positive temperature,
+   fluctuation (divisor of the force constant and of the mass) and time constant, non-negative damping;
+   harmonicWalls: at least one list of walls, one wall per variable in every list given, lower < upper (and apart) and
+   non-zero constants when both are given;  OPES: barrier >= 0, biasfactor > 1 or infinite, epsilon > 0, cutoff > 0,
+   compression threshold 0 or within [0, cutoff];  metadynamics: positive hill weight, one width per variable;
+   shared ABF: outputFreq a multiple of sharedFreq (or sharedFreq 0);  ALB: halved update frequency >= 2, one center per
+   variable;  changing force constant: k >= 0 and targetNumSteps non-zero. *)
+Theorem C10_accepted_configuration_invariants :
+  (forall temp e, x_err (fst (colvarx_validate temp e)) = false -> colvarx_inv (snd (colvarx_validate temp e)) = true) /\
+  (forall n e, (0 < n)%nat -> x_err (fst (walls_validate n e)) = false ->
+     let s := snd (walls_validate n e) in
+     (wx_lower s <> [] \/ wx_upper s <> []) /\
+     (wx_lower s <> [] -> List.length (wx_lower s) = n) /\ (wx_upper s <> [] -> List.length (wx_upper s) = n) /\
+     (wx_lower s <> [] -> wx_upper s <> [] ->
+        pairwise_lt (wx_lower s) (wx_upper s) = true /\ pairwise_apart (wx_lower s) (wx_upper s) = true /\
+        Qeq_bool (wx_lk s * wx_uk s) Q0 = false)) /\
+  (forall kbt bfinf explore e,
+     x_err (fst (opesx_validate kbt bfinf explore e)) = false -> opesx_inv (snd (opesx_validate kbt bfinf explore e)) = true) /\
+  (forall n e, x_err (fst (metax_validate n e)) = false ->
+     negb (Qle_bool (mx_weight (snd (metax_validate n e))) Q0) = true /\ mx_sigmas (snd (metax_validate n e)) = n) /\
+  (forall rof e, x_err (fst (abfshared_validate rof e)) = false -> eflag e "shared" false = true ->
+     let '(ofr, sf) := snd (abfshared_validate rof e) in (sf =? 0) || (ofr mod sf =? 0) = true) /\
+  (forall n e, x_err (fst (alb_validate n e)) = false ->
+     2 <= fst (snd (alb_validate n e)) /\ snd (snd (alb_validate n e)) = n) /\
+  (forall rof e, x_err (fst (kmoving_validate rof e)) = false ->
+     let s := snd (kmoving_validate rof e) in
+     Qle_bool Q0 (kx_k s) = true /\ (kx_changing s = true -> kx_nsteps s <> 0)).
+Proof.
+  exact (conj colvarx_accept (conj walls_accept (conj opesx_accept (conj metax_accept (conj abfshared_accept
+        (conj alb_accept kmoving_accept)))))).
+Qed.
+Print Assumptions C10_accepted_configuration_invariants.
+
+Example C10_example_validate :
+  x_err (fst (colvarx_validate (300 # 1) (mkEnv [("width", TokFrac 0 1 2); ("extendedFluctuation", TokFrac 0 1 4)] [] [("extendedLagrangian", true)]))) = false /\
+  x_err (fst (colvarx_validate (300 # 1) (mkEnv [("width", TokInt 0)] [] []))) = true /\
+  x_err (fst (walls_validate 2 (mkEnv [] [("lowerWalls", [TokInt 0; TokInt 0]); ("upperWalls", [TokInt 3; TokInt 3])] []))) = false /\
+  x_err (fst (walls_validate 2 (mkEnv [] [("lowerWalls", [TokInt 3; TokInt 0]); ("upperWalls", [TokInt 3; TokInt 3])] []))) = true /\
+  x_err (fst (alb_validate 2 (mkEnv [("UpdateFrequency", TokInt 3)] [("centers", [TokInt 1; TokInt 1])] []))) = true.
+Proof. vm_compute. repeat split. Qed.
+
+(* Module-level residue of a rejected configuration: the queue of auto-generated configuration (extra_conf: the
+   harmonicWalls blocks that the legacy lowerWall/upperWall keywords of a variable append, also when that variable is then
+   rejected).  With the clear() at the start of parse_config: (1) the outcome of a configuration does not depend on
+   what an earlier one left queued (nor on its error flag); (2) a configuration whose first variable is rejected leaves
+   the visible state unchanged and (3) the NEXT configuration then gives exactly the state it gives in a session that
+   never saw the rejected one; (4) after any configuration the next one sees only the object lists.  (5) Without the
+   clear() (seeded change C10_3) a valid configuration gains the bias queued by an earlier, rejected variable. *)
+Theorem C10_rejected_config_leaves_no_residue :
+  (forall cvs bt st p e,
+     parse_config_ext true cvs bt (mkMState (mkLists (l_colvars (ms_lists st)) (l_biases (ms_lists st)) e) p)
+     = parse_config_ext true cvs bt st) /\
+  (forall b r bt st, k_fails (cb_block b) = true ->
+     visible (parse_config_ext true (b :: r) bt st) = visible st /\
+     l_err (ms_lists (parse_config_ext true (b :: r) bt st)) = true) /\
+  (forall b r bt st cvs2 bt2, k_fails (cb_block b) = true ->
+     parse_config_ext true cvs2 bt2 (parse_config_ext true (b :: r) bt st) = parse_config_ext true cvs2 bt2 st) /\
+  (forall cvs bt st cvs2 bt2,
+     parse_config_ext true cvs2 bt2 (parse_config_ext true cvs bt st)
+     = parse_config_ext true cvs2 bt2 (mkMState (ms_lists (parse_config_ext true cvs bt st)) [])) /\
+  (exists b st v,
+     k_fails (cb_block b) = true /\
+     visible (parse_config_ext false [v] [] (parse_config_ext false [b] [] st)) <> visible (parse_config_ext false [v] [] st) /\
+     visible (parse_config_ext true [v] [] (parse_config_ext true [b] [] st)) = visible (parse_config_ext true [v] [] st)).
+Proof.
+  exact (conj pending_irrelevant (conj rejected_first_visible (conj rejected_then_next (conj after_any_config pending_noclear_refuted)))).
+Qed.
+Print Assumptions C10_rejected_config_leaves_no_residue.
+
 (* What the code did BEFORE the repairs (fix: commits in /repo), kept as witnesses; the check reports a violation if
    the tree behaves like this again. *)
 Theorem C10_before_repair_refuted :
